@@ -14,9 +14,11 @@ import (
 	"math"
 	"os"
 	"path/filepath"
+	"strings"
 	"sync"
 
 	"github.com/deadsy/sdfx/render"
+	"github.com/deadsy/sdfx/render/dc"
 	"github.com/deadsy/sdfx/sdf"
 
 	"verif/internal/fmtread"
@@ -26,7 +28,7 @@ import (
 // Case is the job description.
 type Case struct {
 	Program  *shape.Node `json:"program"`
-	Renderer string      `json:"renderer"` // mcu mco msu msq
+	Renderer string      `json:"renderer"` // mcu mco dcv1 dcv2 | msu msq dc2
 	Cells    int         `json:"cells"`
 	Sinks    []string    `json:"sinks"` // triangles stl 3mf | lines dxf svg
 }
@@ -39,10 +41,42 @@ func render3(name string, cells int) render.Render3 {
 }
 
 func render2(name string, cells int) render.Render2 {
-	if name == "msq" {
+	switch name {
+	case "msq":
 		return render.NewMarchingSquaresQuadtree(cells)
+	case "dc2":
+		return render.NewDualContouring2D(cells)
 	}
 	return render.NewMarchingSquaresUniform(cells)
+}
+
+func dcTriangles(s sdf.SDF3, name string, cells int) []*sdf.Triangle3 {
+	var out []*sdf.Triangle3
+	var wg sync.WaitGroup
+	wg.Add(1)
+	if name == "dcv1" {
+		ch := make(chan *sdf.Triangle3)
+		go func() {
+			defer wg.Done()
+			for t := range ch {
+				out = append(out, t)
+			}
+		}()
+		dc.NewDualContouringV1(-1, 0, true).Render(s, cells, ch)
+		close(ch)
+	} else {
+		ch := make(chan []*sdf.Triangle3)
+		go func() {
+			defer wg.Done()
+			for ts := range ch {
+				out = append(out, ts...)
+			}
+		}()
+		dc.NewDualContouringDefault(cells).Render(s, ch)
+		close(ch)
+	}
+	wg.Wait()
+	return out
 }
 
 func fileHash(path string) string {
@@ -78,7 +112,12 @@ func main() {
 	for _, sink := range c.Sinks {
 		switch sink {
 		case "triangles":
-			ts := render.ToTriangles(built.SDF3(), render3(c.Renderer, c.Cells))
+			var ts []*sdf.Triangle3
+			if strings.HasPrefix(c.Renderer, "dcv") {
+				ts = dcTriangles(built.SDF3(), c.Renderer, c.Cells)
+			} else {
+				ts = render.ToTriangles(built.SDF3(), render3(c.Renderer, c.Cells))
+			}
 			h := sha256.New()
 			for _, t := range ts {
 				for _, v := range t {
